@@ -197,6 +197,12 @@ def graph_fixed():
     # ... and from a file of the same name next to it
     side = add(Item("FgTypesSide", "FgTypesSide", "named", fields=[Field("fg_side", prim("bool"))], export_to="fgapi2/types.ts"))
     add(Item("FgTypesUser", "FgTypesUser", "named", fields=[Field("fg_s", user(side)), Field("fg_l", user(low))], export_to="fgapi/v2/x/types.ts"))
+    # enums whose variants are all skipped (declared `never`) keep their `export_to`, directory form and file form
+    sk1 = add(Item("FgAllSkippedDir", "FgAllSkippedDir", "enum", variants=[
+        Variant("FgSk1", "unit", skip=True), Variant("FgSk2", "newtype", [Field(None, prim("i32"))], skip=True)], export_to="fgskip/nested/"))
+    sk2 = add(Item("FgAllSkippedFile", "FgAllSkippedFile", "enum", variants=[Variant("FgSk3", "unit", skip=True)], export_to="fgskip/file/renamed.ts"))
+    add(Item("FgSkipUser", "FgSkipUser", "named", fields=[Field("fg_sk1", user(sk1)), Field("fg_sk2", Ty("opt", args=[user(sk2)]))],
+             export_to="fgskip/nested/"))
     # a concretised parameter that has a Rust default: neither the parameter nor its default is part of the declaration
     kel = add(Item("FgKelvin", "FgKelvin", "named", fields=[Field("fg_k", prim("f32"))], export_to="fgunits/"))
     cel = add(Item("FgCelsius", "FgCelsius", "named", fields=[Field("fg_c", prim("f32"))], export_to="fgunits/"))
